@@ -194,6 +194,14 @@ Print Assumptions hex_encode_loop_matches_source.
 Theorem b64_encode_loop_matches_source : forall l fuel, all_lt 256 l = true -> (length l < fuel)%nat ->
   (Z.of_nat (length l) < 18446744073709551616)%Z ->
   exists ws, ST.Gen.Leaf.src_b64_encode fuel (ST.Codec.LoopBridge.arrb l) (Z.of_nat (length l)) = Some ws /\
-             b64_encode_raw (S (length l)) l = Ok (map Z.to_N ws).
+             b64_encode_raw (S (length l)) l = Ok (map Z.to_N ws) /\ Forall (fun w => (0 <= w)%Z) ws.
 Proof. exact ST.Codec.LoopBridge.b64_encode_matches_source. Qed.
 Print Assumptions b64_encode_loop_matches_source.
+
+(* ... and the ST_ASSERT in the default group of its switch is unreachable *)
+Theorem b64_encode_assert_unreachable : forall l fuel ws, all_lt 256 l = true -> (length l < fuel)%nat ->
+  (Z.of_nat (length l) < 18446744073709551616)%Z ->
+  ST.Gen.Leaf.src_b64_encode fuel (ST.Codec.LoopBridge.arrb l) (Z.of_nat (length l)) = Some ws ->
+  ~ In ST.Gen.Leaf.ext_abort_unit ws.
+Proof. exact ST.Codec.LoopBridge.b64_encode_never_aborts. Qed.
+Print Assumptions b64_encode_assert_unreachable.
